@@ -267,7 +267,12 @@ PRules(st, e, heavy) ==
     [] e.op = "parse" -> ParseRules(st, e, heavy)
     [] e.op = "parsenil" -> {
       <<"C14.n",         e.n = Min(c.Blk, Unparsed(st))>>,
-      <<"C14.empty_iff", e.err = (IF Unparsed(st) = 0 THEN "empty" ELSE "")>> }
+      <<"C14.empty_iff", e.err = (IF Unparsed(st) = 0 THEN "empty" ELSE "")>>,
+      \* C03 speaks of every Parse call, the skipping ones included: the two
+      \* clauses below are implied by C14.n / C14.empty_iff (never stricter).
+      <<"C03.empty_iff", (e.err = "empty") <=> (Unparsed(st) = 0)>>,
+      <<"C03.n_range",   IF Unparsed(st) = 0 \/ e.err # "" THEN e.err = "empty" => e.n = 0
+                         ELSE e.n >= 1 /\ e.n <= Min(c.Blk, Unparsed(st))>> }
     [] e.op = "shrink" -> {
       <<"C15.shrink_delta", e.delta = Max(0, (st.w - st.off0) - c.S)>> }
     [] e.op = "reset" -> {
